@@ -5,6 +5,7 @@ from .common import *
 from .isomsg import *
 
 PROPERTY = 'C01'
+PYTHON_O = ['single/latin_1/bin', 'pds-keys/latin_1', 'generic/g-typed/cp037']      # obligations that are also explored with the modules compiled as under python -O
 ASSUMPTIONS = [
     'element subsets are concrete and drawn from a family (every single configured element, pairs, one-of-each-class messages); '
     'lengths, numeric values and text content are symbolic',
@@ -30,43 +31,86 @@ def check_codecs():
             assert len(s) == 1 and s.encode(c) == b, (c, i)
 
 
+def roundtrip_body(bits, enc, hexbm, maxvar=None, cfgs=None, cfgname='packaged', tag='', rp_of=None):
+    """one dumps/loads round trip of a symbolic message over `bits`; returns (msg, elems)"""
+    iso = M().iso8583
+    kw = {'tag': tag} if tag else {}
+    msg, elems = build_message(bits, cfgs=cfgs, maxvar=maxvar, **kw)
+
+    def rp_single():
+        return {'kind': 'roundtrip', 'args': {'msg': msg_witness(msg, elems, ev), 'enc': enc, 'hexbm': hexbm, 'cfg': cfgname if cfgs is None else cfgs}}
+    rp = rp_single if rp_of is None else (lambda: rp_of(msg, elems))
+    core.set_fallback(rp, 'C01/concretised')
+    with guard('dumps', 'C01/encode-exception', rp):
+        b = iso.dumps(dict(msg), encoding=enc, hex_bitmap=hexbm, iso_config=cfgs)
+    with guard('loads(dumps(m))', 'C01/decode-exception', rp):
+        d = iso.loads(b, encoding=enc, hex_bitmap=hexbm, iso_config=cfgs)
+    require(d.get('MTI') == msg['MTI'], 'MTI changed', key='C01/value', replay=rp)
+    allowed = {'MTI'}
+    for e in elems:
+        got = d.get(e.key)
+        require(e.key in d, '%s lost' % e.key, key='C01/lost', replay=rp)
+        if e.kind == 'num':
+            require(isinstance(got, (int, SInt)) and not isinstance(got, bool), '%s is not a number' % e.key, key='C01/value', replay=rp)
+            require(s_eq(got, e.expect), '%s changed' % e.key, key='C01/value', replay=rp)
+        elif e.kind == 'dec':
+            require(type(got) is type(e.expect) and got == e.expect, '%s changed' % e.key, key='C01/value', replay=rp)
+        elif e.kind == 'date':
+            require(models.dates_equal(got, e.expect), '%s changed' % e.key, key='C01/value', replay=rp)
+        else:
+            req_eq(got, e.expect, '%s changed' % e.key, key='C01/value', replay=rp)
+        for k, v in e.pds.items():
+            require(k in d, '%s lost' % k, key='C01/lost', replay=rp)
+            req_eq(d[k], v, '%s changed' % k, key='C01/value', replay=rp)
+        allowed.add(e.key)
+        allowed |= e.derived
+    if cfgs is not None:
+        carriers = {'DE%s' % k for k, v in cfgs.items() if v.get('field_processor') == 'PDS'}
+        if any(isinstance(e, PdsElem) for e in elems):
+            allowed = (allowed - {'DE%d' % c for c in PDS_CARRIERS}) | carriers | {e.key for e in elems}
+    extra = [k for k in d if k not in allowed]
+    require(not extra, 'undocumented extra keys %s' % extra, key='C01/extra', replay=rp)
+    return msg, elems, rp
+
+
 def roundtrip(pick, enc, hexbm, maxvar=None, cfgs=None, cfgname='packaged'):
     def h():
         core.FUEL.set(40)
-        iso = M().iso8583
         bits = pick()
-        msg, elems = build_message(bits, cfgs=cfgs, maxvar=maxvar)
-
-        def rp():
-            return {'kind': 'roundtrip', 'args': {'msg': msg_witness(msg, elems, ev), 'enc': enc, 'hexbm': hexbm, 'cfg': cfgname if cfgs is None else cfgs}}
-        core.set_fallback(rp, 'C01/concretised')
-        with guard('dumps', 'C01/encode-exception', rp):
-            b = iso.dumps(dict(msg), encoding=enc, hex_bitmap=hexbm, iso_config=cfgs)
-        with guard('loads(dumps(m))', 'C01/decode-exception', rp):
-            d = iso.loads(b, encoding=enc, hex_bitmap=hexbm, iso_config=cfgs)
-        require(d.get('MTI') == msg['MTI'], 'MTI changed', key='C01/value', replay=rp)
-        allowed = {'MTI'}
-        for e in elems:
-            got = d.get(e.key)
-            require(e.key in d, '%s lost' % e.key, key='C01/lost', replay=rp)
-            if e.kind == 'num':
-                require(isinstance(got, (int, SInt)) and not isinstance(got, bool), '%s is not a number' % e.key, key='C01/value', replay=rp)
-                require(s_eq(got, e.expect), '%s changed' % e.key, key='C01/value', replay=rp)
-            elif e.kind == 'dec':
-                require(type(got) is type(e.expect) and got == e.expect, '%s changed' % e.key, key='C01/value', replay=rp)
-            elif e.kind == 'date':
-                require(got is e.expect, '%s changed' % e.key, key='C01/value', replay=rp)
-            else:
-                req_eq(got, e.expect, '%s changed' % e.key, key='C01/value', replay=rp)
-            for k, v in e.pds.items():
-                require(k in d, '%s lost' % k, key='C01/lost', replay=rp)
-                req_eq(d[k], v, '%s changed' % k, key='C01/value', replay=rp)
-            allowed.add(e.key)
-            allowed |= e.derived
-        extra = [k for k in d if k not in allowed]
-        require(not extra, 'undocumented extra keys %s' % extra, key='C01/extra', replay=rp)
+        msg, elems, rp = roundtrip_body(bits, enc, hexbm, maxvar, cfgs, cfgname)
         return {'sample': {'bits': bits, 'enc': enc, 'hex': hexbm, 'values': {k: (str(v)[:40]) for k, v in msg_witness(msg, elems, ev).items()}},
                 'replay': rp()}
+    return h
+
+
+RECONF_A = {'2': {'field_type': 'LLVAR', 'field_length': 0}, '3': {'field_type': 'FIXED', 'field_length': 6, 'field_python_type': 'int'},
+            '48': {'field_type': 'LLLVAR', 'field_length': 0, 'field_processor': 'PDS'}, '62': {'field_type': 'LLLVAR', 'field_length': 0}}
+RECONF_B = {'2': {'field_type': 'LLLVAR', 'field_length': 0}, '3': {'field_type': 'FIXED', 'field_length': 8, 'field_python_type': 'int'},
+            '48': {'field_type': 'LLLVAR', 'field_length': 0}, '62': {'field_type': 'LLLVAR', 'field_length': 0, 'field_processor': 'PDS'}}
+
+
+def reconfigured(enc, hexbm):
+    """the same configuration object, edited in place between two uses: the second round trip follows the edited configuration"""
+    import copy
+
+    def h():
+        core.FUEL.set(40)
+        cfg = copy.deepcopy(RECONF_A)
+        first = {}
+
+        def rp1(msg, elems):
+            return {'kind': 'reconfig', 'args': {'msgs': [msg_witness(msg, elems, ev)], 'cfgs': [RECONF_A], 'enc': enc, 'hexbm': hexbm}}
+        m1, e1, _ = roundtrip_body([2, 3, 62, 'PDS0023'], enc, hexbm, 200, cfg, tag='_a', rp_of=rp1)
+        w1 = (m1, e1)
+        # in-place edit (same dict object): PDS processor moves from DE48 to DE62, two widths change
+        cfg.clear()
+        cfg.update(copy.deepcopy(RECONF_B))
+
+        def rp2(msg, elems):
+            return {'kind': 'reconfig', 'args': {'msgs': [msg_witness(*w1, ev), msg_witness(msg, elems, ev)], 'cfgs': [RECONF_A, RECONF_B],
+                                                 'enc': enc, 'hexbm': hexbm}}
+        m2, e2, rp = roundtrip_body([2, 3, 48, 'PDS0023'], enc, hexbm, 200, cfg, tag='_b', rp_of=rp2)
+        return {'sample': {'enc': enc, 'second': {k: str(v)[:30] for k, v in msg_witness(m2, e2, ev).items()}}, 'replay': rp()}
     return h
 
 
@@ -144,6 +188,10 @@ def obligations(tier):
                       'DE2 plus three PDSxxxx entries, every combination of value lengths 0..992 (one to three carriers)', _funcs))
     obs.append(Ob('generic/g-unordered-keys/cp500', roundtrip(lambda: [2, 4, 10, 12, 100], 'cp500', False, cfgs=GENERIC_UNORDERED), 300,
                   'caller-supplied configuration whose dictionary keys are not in ascending numeric order (as after a JSON round trip with sorted string keys)', _funcs))
+    for enc, hexbm in ((('latin_1', False),) if q else (('latin_1', False), ('cp500', True))):
+        obs.append(Ob('reconfigured/%s' % enc, reconfigured(enc, hexbm), 600,
+                      'one caller-supplied configuration object used for a round trip, edited in place (PDS carrier moved, widths changed) and used again: '
+                      'nothing may be remembered from the first use', _funcs))
     import itertools as _it
     subsets = [[8], [28], [8, 28], [3, 8, 28]]
     obs.append(Ob('generic/g-decimal/latin_1', roundtrip(lambda: list(choose('subset', subsets)), 'latin_1', False, cfgs=GENERIC_DEC), 300,
